@@ -90,6 +90,35 @@ pub fn gen_c06(tier: &str, seed: u64, out: &mut dyn FnMut(Value)) {
     for depth in [8usize, 31, 32, 33, 34, 40, 63, 64, 65, 66, 100, 127, 128, 129, 255, 256, 257] {
         out(scenario_json(&deep_chain(depth), &events_m, &mut rng, "dependency chain"));
     }
+    // different sets of dependencies whose names, written one after the other, spell the same text ({ab} / {a, b},
+    // {netproc} / {net, proc}), in both load orders; and references to a rule that is loaded but disabled
+    {
+        let leaf = |n: &str, i: usize| SRule { name: n.into(), ty: Some("dependency".into()), ops: vec![("$f".into(), Operand::Test { segs: fpath(i), op: 0, lit: Lit::sq("1") })], cond: Some(Form::V("$f".into())), ..Default::default() };
+        let user = |n: &str, deps: &[&str]| SRule { name: n.into(), ops: deps.iter().enumerate().map(|(k, d)| (format!("$d{k}"), Operand::Rule(d.to_string()))).collect(), cond: Some(Form::All(None)), severity: Some(3), ..Default::default() };
+        for (one, two, joined) in [("a", "b", "ab"), ("net", "proc", "netproc"), ("r", "ab", "rab")] {
+            for flip in [false, true] {
+                let mut rules = vec![leaf(one, 0), leaf(two, 1), leaf(joined, 2)];
+                let u1 = user("uses.joined", &[joined]);
+                let u2 = user("uses.both", &[one, two]);
+                if flip {
+                    rules.push(u2.clone());
+                    rules.push(u1.clone());
+                } else {
+                    rules.push(u1);
+                    rules.push(u2);
+                }
+                out(scenario_json(&rules, &events_m, &mut rng, "dependency sets spelling the same text"));
+            }
+        }
+        for cond in [Form::V("$d0".into()), Form::Not(Box::new(Form::V("$d0".into())))] {
+            let mut off = leaf("off", 0);
+            off.disable = Some(true);
+            let mut u = user("uses.off", &["off"]);
+            u.cond = Some(cond);
+            out(scenario_json(&[leaf("on", 1), off.clone(), u.clone()], &events_m, &mut rng, "reference to a disabled rule"));
+            out(scenario_json(&[off, leaf("on", 1), u], &events_m, &mut rng, "reference to a disabled rule"));
+        }
+    }
     // layered dependencies: every rule of a layer uses every rule of the layer below (shared dependencies at every level)
     for (layers, width) in [(6usize, 2usize), (20, 2), (40, 2), (12, 3)] {
         let mut rules = vec![];
@@ -330,6 +359,14 @@ pub fn gen_c12(tier: &str, seed: u64, out: &mut dyn FnMut(Value)) {
     }
     many_kinds(&mut rng, out);
     many_candidates(&mut rng, out);
+    // rules made of `rule(..)` operands only, some levels above the field test, and events of one kind that differ in
+    // that field
+    {
+        let events: Vec<DynEvent> = [Some("1"), Some("0"), Some("1"), None, Some("0"), Some("1")].iter().map(|v| DynEvent { source: "s".into(), id: 1, fields: v.map(|v| (fpath(0), s1(v))).into_iter().collect() }).collect();
+        for depth in [2usize, 3, 4, 5, 9, 40] {
+            out(scenario_json(&deep_chain(depth), &events, &mut rng, "chain of rule(..)-only rules, events of one kind"));
+        }
+    }
     // kinds no rule applies to, by the hundred thousand, then kinds rules do apply to (implementation only)
     {
         let ev = |src: &str, id: i64, x: &str, y: &str| serde_json::json!({"source": src, "id": id, "fields": [[["x"], {"s": x}], [["y"], {"s": y}]]});
